@@ -10,6 +10,7 @@
 //	R6 channel receives, select clauses, x.Wait() -> followed by a post-block yield
 //	R7 tuning constants                       -> small values in the "small" knob flavour
 //	R9 sync.Pool                              -> vpool.Pool (deterministic LIFO)
+//	R10 sync.Mutex / RWMutex / Once           -> vsync (blocking through the scheduler)
 //
 // No statement of gnet is reordered or removed.
 package instr
@@ -37,6 +38,7 @@ const (
 	pVsched  = "verif/sim/vsched"
 	pVnet    = "verif/sim/vnet"
 	pVpool   = "verif/sim/vpool"
+	pVsync   = "verif/sim/vsync"
 )
 
 var sysFuncs = map[string]bool{}
@@ -405,6 +407,12 @@ func (rw *rewriter) run() {
 				if x.Sel.Name == "Pool" && !noAtomic {
 					x.X = rw.use(pVpool)
 					rw.count("R9-pool")
+				}
+				if (x.Sel.Name == "Mutex" || x.Sel.Name == "RWMutex" || x.Sel.Name == "Once") && !noAtomic {
+					// R10: locks block through the scheduler (a task holding a lock across a
+					// scheduling point must not hang the one that waits for it)
+					x.X = rw.use(pVsync)
+					rw.count("R10-lock")
 				}
 			case "sync/atomic":
 				if !noAtomic {
